@@ -12,9 +12,11 @@ type ErrOnce struct {
 
 // Do doing the stuff.
 func (e *ErrOnce) Do(fn func() error) error {
+	onceHook("enter", e)
 	e.once.Do(func() {
 		e.err = fn()
 	})
+	onceHook("leave", e)
 	return e.err
 }
 
@@ -27,8 +29,10 @@ type ErrOnceWithValue[T any] struct {
 
 // Do doing the stuff.
 func (e *ErrOnceWithValue[T]) Do(fn func() (T, error)) (T, error) {
+	onceHook("enter", e)
 	e.once.Do(func() {
 		e.value, e.err = fn()
 	})
+	onceHook("leave", e)
 	return e.value, e.err
 }
